@@ -1296,6 +1296,36 @@ DROPPING = ("take", "skip", "step_by", "filter", "filter_map", "take_while", "sk
             "next", "peekable", "dedup", "chunks", "rev", "max", "min", "find", "position", "first")
 
 
+def homograph_accumulate(ctx):
+    """LEXMAP (homographs): `all rows sharing a surface are kept as distinct homographs`."""
+    crate = ctx.facts("A").lib
+    E = Effects(crate)
+    # (1b) homographs accumulate: the surface -> ids map of the builder only ever grows a
+    # surface's id list (entry().or_default().push(..)); `insert(surface, ids)` replaces what an
+    # earlier row with the same surface had registered
+    nacc = 0
+    for q, g in sorted(crate.fns.items()):
+        if not g.body or g.krate != "vibrato" or "lexicon" not in q:
+            continue
+        gfa = E.fa(q)
+        GS = None
+        for gb, gt in gfa.calls():
+            nm = sorted({strip_generics(x).rsplit("::", 1)[-1] for x in callee_paths(gt)})[0]
+            if nm not in ("insert", "entry") or not gt["args"]:
+                continue
+            ty = gfa.fn.locals[op_place(gt["args"][0])["l"]]["ty"] if op_place(gt["args"][0]) else ""
+            if "Map<std::string::String, std::vec::Vec<u32>" not in ty.replace("alloc::", "std::"):
+                continue
+            if nm == "entry":
+                nacc += 1
+                continue
+            ctx.ob("LEXMAP", "WordMapBuilder|homographs-accumulate|%s" % q.split("::")[-1], False, gfa.loc(gb),
+                   "%s registers the ids of a surface with `insert`, which replaces the ids an earlier "
+                   "row with the same surface had registered: homographs on non-adjacent rows are lost"
+                   % "::".join(q.split("::")[-2:]))
+    ctx.floor("LEXMAP", "accumulating registrations (entry) in the word-map builder", nacc, 1)
+
+
 def lexmap_shape(ctx):
     """LEXMAP (C11): three places where a lexicon row can be altered or lost without touching the
     parser's columns.
